@@ -842,7 +842,19 @@ impl<'a> G<'a> {
                 }
                 // gate (finding N10): an alternative that constrains nested structure is
                 // subtracted as its whole variant; members are flat here (depth 0)
-                // (and never partial patterns: finding N11)
+                // (and never partial patterns: finding N11). Over a recursive alias the members
+                // may constrain nested structure (8b75929 repaired that half of N10; the variants
+                // of 'list / 'tree carry no labels, so no partial patterns arise).
+                if matches!(ty, GTy::List(_) | GTy::Tree(_)) && self.r.chance(1, 2) {
+                    self.feat("pat:alternation-nested-recursive");
+                    let mut none = vec![];
+                    let saved = self.in_tuple_pat;
+                    self.in_tuple_pat = true; // no alternation inside the members
+                    let (p1, v1) = self.pat(&vs[i], 1, &mut none, false);
+                    let (p2, v2) = self.pat(&vs[j], 1, &mut none, false);
+                    self.in_tuple_pat = saved;
+                    return (format!("({p1} | {p2})"), v1 || v2);
+                }
                 let (p1, v1) = self.flat_pat(&vs[i]);
                 let (p2, v2) = self.flat_pat(&vs[j]);
                 return (format!("({p1} | {p2})"), v1 || v2);
